@@ -9,7 +9,7 @@
 (*   silence TZX 0x20 (no level), PZX PAUS (level 0/1)                       *)
 (*   pzxdata PZX DATA: bytes, any two pulse sequences, tail, level           *)
 (***************************************************************************)
-EXTENDS Tape
+EXTENDS Tape, Json, IOUtils
 
 Blk(p, d, z, o, u, ta, pa, po, r) ==
   [pulses |-> p, data |-> d, zero |-> z, one |-> o, used |-> u, tail |-> ta, pause |-> pa, pol |-> po, dr |-> r]
@@ -27,4 +27,11 @@ Silence(W, P) == {Blk(<<>>, <<>>, <<>>, <<>>, 8, 0, w, p, 0) : w \in W, p \in P}
 PzxData(Bytes, ZS, OS, U, T, P) == {Blk(<<>>, dat, z, o, u, ta, 0, p, 0) : dat \in Bytes, z \in ZS, o \in OS, u \in U, ta \in T, p \in P}
 
 AnyPol == {NoPol, 0, 1}
+
+\* Pattern C: the harness replays every tape of the bounded model into the real generator; it gets the
+\* bounds from here (cfg: SPECIFICATION DumpSpec, environment variable ALPHA_OUT = file to write).
+DumpInit == /\ Init
+            /\ JsonSerialize(IOEnv.ALPHA_OUT, [alphabet |-> SX!SetToSeq(Alphabet), maxblocks |-> MaxBlocks,
+                                               firstedges |-> SX!SetToSeq(FirstEdges), gpols |-> SX!SetToSeq(GPols)])
+DumpSpec == DumpInit /\ [][FALSE]_vars
 =============================================================================
